@@ -143,6 +143,11 @@ NAME_PAIRS = [
     (("q0", "q1"), ("q1",)),
     (("q1",), ("q0", "q1", "q2")),
     (("q2", "q10"), ("q0", "q2")),
+    # the same names stored in a different order (numpoly.symbols("q2 q0") gives such leaves)
+    (("q1", "q0"), ("q0", "q1")),
+    (("q2", "q0"), ("q0", "q2")),
+    (("q10", "q2"), ("q2", "q10")),
+    (("q2", "q0", "q1"), ("q0", "q1", "q2")),
 ]
 
 
@@ -232,7 +237,7 @@ def gen_cases(tier: str, seed: int) -> List[Dict]:
     ncomp = 40 if quick else 600
     for _ in range(ncomp):
         shapes = rng.choice([((), (), ()), ((2,), (), (2,)), ((2,), (2, 1), ()), ((1, 2), (2,), (2, 2))])
-        names = [rng.choice(S.NAME_SETS[:5]) for _ in range(3)]
+        names = [rng.choice(S.NAME_SETS[:5] + S.NAME_SETS[7:]) for _ in range(3)]
         ops_ = [poly("abc"[i], names[i], shapes[i], rng.choice([1, 2]), 2) for i in range(3)]
         depth = 3 if quick else rng.choice([3, 4])
         expr = _rand_expr(rng, depth, 3)
